@@ -205,6 +205,9 @@ func (h *H) Expired(note string) bool {
 	return true
 }
 
+// Deadline returns the internal deadline (zero if none).
+func (h *H) Deadline() time.Time { return h.deadline }
+
 // Cap marks the run as capped.
 func (h *H) Cap(note string) {
 	h.mu.Lock()
